@@ -39,6 +39,48 @@ const (
 
 var c22EntryNames = []string{"forward", "grpc", "grpc-legacy", "http"}
 
+// Known finding (same root cause as C23's F8, different consequence): fanoutForward builds its
+// replicationErrors with threshold = write quorum instead of the failure threshold. For replication
+// factors whose quorum is larger than the failure threshold (RF 4, 6, ...) a series that failed with
+// fewer than quorum errors has Cause()==nil, so the writeErrors returned by fanoutForward is non-nil but
+// errors.Cause(err)==nil, and Handler.RemoteWrite (gRPC) does `switch errors.Cause(err) { case nil: ack }`.
+const sigC22GRPCAck = "C22/grpc-ack-on-causeless-error"
+
+// c22InGRPCAckClass is the narrow class excluded while the finding is listed as known: gRPC entry,
+// fresh (not yet replicated) request, quorum > failure threshold, and some series below quorum.
+func c22InGRPCAckClass(sc *c22Scenario, obs c22Obs) bool {
+	if sc.entry != c22EntryGRPC && sc.entry != c22EntryGRPCLegacy {
+		return false
+	}
+	rf := int(sc.cfg.rf)
+	if sc.rep != 0 || vfQuorum(rf) <= rf-vfQuorum(rf)+1 {
+		return false
+	}
+	all, bad := c22Successes(sc, obs, -1)
+	if bad != "" {
+		return false
+	}
+	m, _ := c22Min(all)
+	return m < sc.threshold()
+}
+
+// c22RegressionGRPCAck: RF=4, one series, replicas 0 and 1 unavailable, replicas 2 and 3 succeed,
+// request entered through the gRPC RemoteWrite of a RouterOnly receiver.
+func c22RegressionGRPCAck() *c22Scenario {
+	sc := &c22Scenario{cfg: vfConfig{rf: 4, nodes: 4, algo: AlgorithmHashmod, mode: RouterOnly}, entry: c22EntryGRPC,
+		data: []vfTuple{{tenant: "t0", series: []prompb.TimeSeries{vfSeries("m0", "a", "0")}}}, matrix: map[string]vfSpec{}, down: map[string]bool{}}
+	for _, ep := range vfEndpoints(4) {
+		for r := uint64(0); r < 4; r++ {
+			k := vfOK
+			if r < 2 {
+				k = vfUnavail
+			}
+			sc.matrix[c22Key(ep.Address, r)] = vfSpec{kind: k}
+		}
+	}
+	return sc
+}
+
 type c22Scenario struct {
 	cfg    vfConfig
 	entry  int
@@ -418,9 +460,25 @@ func c22DrawPerm(rt *rapid.T, label string) func(n int) []int {
 
 func TestVerifC22(t *testing.T) {
 	rec := kit.For(t, "C22")
+	known := kit.KnownFindings("C22")
+	{
+		sc := c22RegressionGRPCAck()
+		obs := c22Exec(t, sc, func(n int) []int { return vfPermutations(n)[0] })
+		if msg := c22Check(sc, obs); msg != "" {
+			if known[sigC22GRPCAck] {
+				rec.Known(sigC22GRPCAck, "RF=4 one series [unavailable,unavailable,ok,ok] through gRPC RemoteWrite: "+msg)
+			} else {
+				rec.Violation(t, "regression %s: %s\nscenario: %s", sigC22GRPCAck, msg, sc.render())
+			}
+		}
+	}
 	rec.Check(t, func(rt *rapid.T) {
 		sc := c22Gen(rt)
 		a := c22Exec(t, sc, c22DrawPerm(rt, "orderA"))
+		if known[sigC22GRPCAck] && c22InGRPCAckClass(sc, a) {
+			rec.Excluded(sigC22GRPCAck)
+			return
+		}
 		if msg := c22Check(sc, a); msg != "" {
 			rt.Fatalf("C22 violated: %s\nscenario: %s\nrelease order: %s\nresult: err=%v status=%d", msg, sc.render(), a.orderString(), a.res.err, a.res.status)
 		}
